@@ -61,6 +61,8 @@ type Engine struct {
 	windows    map[int]*windowInfo
 	tableRegions []*Region
 	eagerPrune   bool
+	tables       *tableData
+	repoDir      string
 	aggRegions   map[*AggVal]*Region
 	lastProgress time.Time
 	familyRegs   map[string]*Region
@@ -157,10 +159,14 @@ func (s *State) assume(t *Term) {
 	// equalities between abstract points with a representation atom on one side act as rewrite rules
 	if t.Op == "=" && len(t.Args) == 2 && t.Args[0].Sort == SPt {
 		a, b := t.Args[0], t.Args[1]
-		if !(a.Op == "app" && a.Name == "pt") && b.Op == "app" && b.Name == "pt" {
+		isRep := func(x *Term) bool { return x.Op == "app" && (x.Name == "pt" || x.Name == "aff") }
+		if !isRep(a) && isRep(b) {
 			a, b = b, a
 		}
-		if a.Op == "app" && a.Name == "pt" && !occurs(a, b) {
+		if isRep(a) && isRep(b) && a.Name == "aff" && b.Name == "pt" {
+			a, b = b, a
+		}
+		if isRep(a) && !occurs(a, b) {
 			s.addSubst(a, b)
 		}
 	}
@@ -420,6 +426,17 @@ func (e *Engine) loadPath(st *State, r *Region, path []int, t types.Type) Value 
 	}
 	v, ok := st.mem.cells[pathKey(r.id, path)]
 	if !ok && r.lazy {
+		if r.tblKind != "" {
+			if e.tables == nil {
+				e.loadTables(e.repoDir)
+			}
+			if e.tables.err != nil {
+				e.fail("generator tables unavailable: %v", e.tables.err)
+			}
+			if v, ok := e.tableCell(r, path); ok {
+				return v
+			}
+		}
 		if isScalarType(t) {
 			return e.symbolicScalar(r.name+pathName(r.typ, path), t)
 		}
@@ -1664,7 +1681,14 @@ func (e *Engine) convert(st *State, x Value, from, to types.Type) Value {
 		}
 		return v
 	case *PtrVal:
-		return v // unsafe.Pointer round trips keep (region,path)
+		// unsafe.Pointer round trips keep (region,path); a cast to a pointer to a *shorter array of the same
+		// element type* is a prefix view (Go arrays are contiguous)
+		if _, isPtr := underlying(to).(*types.Pointer); isPtr && !v.null {
+			n := *v
+			n.typ = to
+			return &n
+		}
+		return v
 	}
 	e.fail("unsupported conversion %s -> %s", from, to)
 	return nil
